@@ -863,17 +863,45 @@ type c14Op struct {
 	run  func(ctx sdk.Context) error
 }
 
+// entryStr spells an address entry: id a = lower-case bech32 of account a, 100+a = the upper-case
+// spelling of the same account (both are legal bech32 and pass ValidateBasic).
+func (e *c14Env) entryStr(id int64) string {
+	if id > 100 {
+		return strings.ToUpper(e.accts[id-101].String())
+	}
+	return e.accts[id-1].String()
+}
 func (e *c14Env) parties(ids []int64) []mdtypes.Party {
 	var out []mdtypes.Party
 	for _, id := range ids {
-		out = append(out, mdtypes.Party{Address: e.accts[id-1].String(), Role: mdtypes.PartyType_PARTY_TYPE_OWNER})
+		out = append(out, mdtypes.Party{Address: e.entryStr(id), Role: mdtypes.PartyType_PARTY_TYPE_OWNER})
 	}
 	return out
 }
 func (e *c14Env) strs(ids []int64) []string {
 	out := []string{}
 	for _, id := range ids {
-		out = append(out, e.accts[id-1].String())
+		out = append(out, e.entryStr(id))
+	}
+	return out
+}
+
+// respell switches some entries to the other spelling and sometimes adds the second spelling of
+// an account that is already listed.
+func respell(r *rand.Rand, l []int64) []int64 {
+	out := append([]int64{}, l...)
+	for i := range out {
+		if r.Intn(4) == 0 {
+			out[i] += 100
+		}
+	}
+	if len(out) > 0 && r.Intn(5) == 0 {
+		x := out[r.Intn(len(out))]
+		if x > 100 {
+			out = append(out, x-100)
+		} else {
+			out = append(out, x+100)
+		}
 	}
 	return out
 }
@@ -980,7 +1008,7 @@ func (e *c14Env) genOp(r *rand.Rand, last c14Obs, step int, raw bool) c14Op {
 		return fmt.Sprintf("(Sc %s %s %s %s)", zI64(s.id), zI64(s.spec), c14ZL(s.owners), c14ZL(s.da))
 	}
 	genScope := func() c14Scope {
-		s := c14Scope{id: aimScope(), spec: aimSSpec(), owners: subset(r, nA, false), da: subset(r, nA, true)}
+		s := c14Scope{id: aimScope(), spec: aimSSpec(), owners: respell(r, subset(r, nA, false)), da: respell(r, subset(r, nA, true))}
 		if r.Intn(6) == 0 && len(s.da) > 0 { // duplicate data access entry
 			s.da = append(s.da, s.da[0])
 		}
@@ -1035,7 +1063,7 @@ func (e *c14Env) genOp(r *rand.Rand, last c14Obs, step int, raw bool) c14Op {
 		return pickN(r, nSc), pickN(r, nN)
 	}
 	genSSpec := func() c14SSpec {
-		s := c14SSpec{id: pickN(r, nSS), owners: subset(r, nA, false)}
+		s := c14SSpec{id: pickN(r, nSS), owners: respell(r, subset(r, nA, false))}
 		for _, c := range last.cspecs {
 			if r.Intn(3) > 0 {
 				s.cspecs = append(s.cspecs, c.id)
@@ -1049,7 +1077,7 @@ func (e *c14Env) genOp(r *rand.Rand, last c14Obs, step int, raw bool) c14Op {
 	sspecTerm := func(s c14SSpec) string {
 		return fmt.Sprintf("(Ss %s %s %s)", zI64(s.id), c14ZL(s.owners), c14ZL(s.cspecs))
 	}
-	genCSpec := func() c14CSpec { return c14CSpec{id: pickN(r, nCS), owners: subset(r, nA, false)} }
+	genCSpec := func() c14CSpec { return c14CSpec{id: pickN(r, nCS), owners: respell(r, subset(r, nA, false))} }
 	cspecTerm := func(s c14CSpec) string { return fmt.Sprintf("(Cs %s %s)", zI64(s.id), c14ZL(s.owners)) }
 	genRSpec := func() c14RSpec {
 		rs := c14RSpec{cspec: aimCSpec(), name: pickN(r, nN)}
@@ -1087,6 +1115,9 @@ func (e *c14Env) genOp(r *rand.Rand, last c14Obs, step int, raw bool) c14Op {
 		return c14Op{"KRemoveScope " + zI64(id), "KRemoveScope", func(ctx sdk.Context) error { return k.RemoveScope(ctx, e.scopeAddr(id)) }}
 	case sel < 23: // data access
 		id, a := aimScope(), pickN(r, nA)
+		if r.Intn(3) == 0 {
+			a += 100
+		}
 		if r.Intn(2) == 0 {
 			return c14Op{fmt.Sprintf("MAddDataAccess %d %d", id, a), "MAddDataAccess", e.msg(mdtypes.NewMsgAddScopeDataAccessRequest(e.scopeAddr(id), e.strs([]int64{a}), e.signers))}
 		}
@@ -1210,7 +1241,11 @@ func c14HistoryStream(t *testing.T, w *CaseWriter, r *rand.Rand) {
 			a := addrN(1400 + i)
 			e.accts = append(e.accts, a)
 			e.acctID[a.String()] = int64(i + 1)
+			e.acctID[strings.ToUpper(a.String())] = int64(100 + i + 1)
 			e.signers = append(e.signers, a.String())
+		}
+		for _, a := range e.accts { // both spellings sign (required signers are matched as strings)
+			e.signers = append(e.signers, strings.ToUpper(a.String()))
 		}
 		mk := func(kind string, n int) []uuid.UUID {
 			var out []uuid.UUID
